@@ -135,7 +135,15 @@ def gen_config(rnd, ca, plat):
             bodies[sec[0].split()[-1]] += [l.strip() for l in sec[1:] if not l.strip().startswith("!")]
     ast = {"order": order, "bodies": bodies, "types": types, "groups": {g: [list(x) for x in v] for g, v in groups.items()},
            "binds": {n: {d: sorted(v) for d, v in b.items()} for n, b in binds.items()}}
-    return "\n".join(out) + "\n", ast
+    # line ends: mostly "\n"; also "\r\n" throughout, or any of the ASCII separators of str.splitlines per line,
+    # with or without a terminator after the last line
+    style = rnd.random()
+    if style < 0.7:
+        return "\n".join(out) + "\n", ast
+    if style < 0.85:
+        return "\r\n".join(out) + rnd.choice(["\r\n", ""]), ast
+    text = "".join(l + rnd.choice(["\n", "\n", "\r\n", "\r", "\x0b", "\x0c", "\x1c", "\x1d", "\x1e"]) for l in out[:-1])
+    return text + (out[-1] if out else "") + rnd.choice(["", "\n"]), ast
 
 
 def correspond(ctx):
@@ -210,7 +218,11 @@ def oracle(ctx, kernel, meta):
         # entries and remarks in configuration order
         exp = []
         for l in ast["bodies"][n]:
-            exp.append(ca.Remark(l, platform=plat).line if l.startswith("remark ") else ca.Ace(l, platform=plat).line)
+            try:
+                exp.append(ca.Remark(l, platform=plat).line if l.startswith("remark ") else ca.Ace(l, platform=plat).line)
+            except Exception as ex:  # noqa
+                return {"what": f"ACL {n}: the configured line {l!r} is read by acls() but refused on its own "
+                                f"({type(ex).__name__}: {ex}); items {[o.line for o in a.items]}"}
         if [o.line for o in a.items] != exp:
             return {"what": f"ACL {n}: items {[o.line for o in a.items]} differ from the configured lines {exp}"}
         if a.input != ast["binds"][n]["in"] or a.output != ast["binds"][n]["out"]:
